@@ -30,6 +30,23 @@ type HttpProbe struct {
 	NumPort int    `yaml:"num_port,omitempty"`
 }
 
+// DeepCopy returns a copy of the probe that shares nothing with the original
+func (p *Probe) DeepCopy() *Probe {
+	if p == nil {
+		return nil
+	}
+	cp := *p
+	if p.Exec != nil {
+		exec := *p.Exec
+		cp.Exec = &exec
+	}
+	if p.HttpGet != nil {
+		httpGet := *p.HttpGet
+		cp.HttpGet = &httpGet
+	}
+	return &cp
+}
+
 func (h *HttpProbe) getUrl() (*url.URL, error) {
 	urlStr := ""
 	if h.NumPort != 0 {
